@@ -2,6 +2,7 @@ SPECIFICATION Spec
 CONSTANTS Keys = {0,1,2,3,4,5}
  MinCap = 4
  FixWrap = FALSE
+ ReuseTomb = FALSE
 INVARIANT NoHang
 INVARIANT CountExact
 CONSTRAINT CapBound
